@@ -647,7 +647,13 @@ impl Source for TestSource {
         self.reads += 1;
         if let Some((at, ms)) = self.stall {
             if at == k {
-                std::thread::sleep(std::time::Duration::from_millis(ms));
+                // in slices: a thread that sleeps in one piece looks like a parked one to the
+                // deadlock rule where /proc/<pid>/task/<tid>/syscall cannot be read; one that
+                // wakes every 20 ms keeps its context-switch counter moving
+                let t0 = std::time::Instant::now();
+                while t0.elapsed() < std::time::Duration::from_millis(ms) {
+                    std::thread::sleep(std::time::Duration::from_millis(20));
+                }
             }
         }
         for f in &self.faults {
@@ -735,7 +741,19 @@ impl Source for TestSource {
         };
         match mode {
             FillMode::Mixed => unreachable!(),
-            FillMode::Int | FillMode::IntShort | FillMode::IntChained => dest.fill_interleaved(data)?,
+            FillMode::Int | FillMode::IntShort | FillMode::IntChained => {
+                // the integer slice handed over starts at every element offset 0..=3 of its
+                // allocation in turn (4-byte aligned, but not 8- or 16-byte aligned: a caller slicing
+                // into a larger buffer, an odd number of samples consumed so far)
+                let off = (k + self.audio.samples.len() / 3) % 4;
+                if off == 0 {
+                    dest.fill_interleaved(data)?;
+                } else {
+                    let mut v = vec![0x5EED_i32; off];
+                    v.extend_from_slice(data);
+                    dest.fill_interleaved(&v[off..])?;
+                }
+            }
             FillMode::Bytes | FillMode::BytesShort | FillMode::BytesChained => {
                 let b = self.bytes_per_sample.unwrap_or((self.audio.bps + 7) / 8);
                 // the byte slice handed over starts at every alignment 0..=3 in turn (a reader
